@@ -69,6 +69,25 @@ class TracedRace:
                 self.rc_sent.append(msg)
 
         self.w.sim.send_hook = hook
+        # preemption point inside Worker.receiveMsg_WakeupMessage: after send_samples() the executor thread may run before the
+        # handler looks at the executor's future (model: WWakeupA / executor steps / WWakeupB)
+        self._in_wakeup = None
+        self._mid = set()
+        self._preempt = []
+        from esrally.driver import driver as _drv
+
+        orig_send_samples = _drv.Worker.send_samples
+        tr = self
+
+        def send_samples(self_):
+            res = orig_send_samples(self_)
+            name = tr._in_wakeup
+            if name is not None and tr.w.sim.actors[name].instance is self_:
+                tr._in_wakeup = None
+                tr._mid_hook(name)
+            return res
+
+        self.w._patch(_drv.Worker, "send_samples", send_samples)
         # use the harness runner so that every sample carries the id of the wire request that produced it
         for t in self.w.tasks_by_id.values():
             t.operation.type = "verif-request"
@@ -143,7 +162,7 @@ class TracedRace:
             alive = sim.actors[wn].alive
             if not alive:
                 fut = fut if fut in ("none", "done", "failed") else fut
-            wk.append({"cur": inst.current_task_index, "nxt": inst.next_task_index, "sd": bool(inst.start_driving), "fut": fut, "complete": inst.complete.is_set(), "cancel": inst.cancel.is_set(), "sampq": sampq, "alive": alive})
+            wk.append({"cur": inst.current_task_index, "nxt": inst.next_task_index, "sd": bool(inst.start_driving), "fut": fut, "complete": inst.complete.is_set(), "cancel": inst.cancel.is_set(), "sampq": sampq, "alive": alive, "mid": wn in self._mid})
         drv = self.driver
         marker = self.drv_actor.RESET_RELATIVE_TIME_MARKER
         dtimers = ["reset" if t["payload"] == marker else "tick" for t in sim.pending_timers(w.DRIVER)]
@@ -281,7 +300,8 @@ class TracedRace:
         if dec[0] == "wakeup":
             if dec[1] == w.DRIVER:
                 return "DWakeup", 1
-            return "WWakeup", int(dec[1][6:])
+            wi = int(dec[1][6:])
+            return ("WWakeup" if self.worker(wi).start_driving else "WWakeupA"), wi
         if dec[0] == "exec_start":
             return "ExecStart", int(dec[1][6:])
         if dec[0] == "req":
@@ -330,7 +350,7 @@ class TracedRace:
         if not inq:
             self.dropped.append(sid)
 
-    def do(self, dec, service_time=None):
+    def do(self, dec, service_time=None, preempt=None):
         w = self.w
         ev, arg = self.decision_event(dec)
         n_cct_before = self._count_cct()
@@ -370,6 +390,17 @@ class TracedRace:
             elif kind == "cancel":
                 w.cancel()
                 w.sim.step(("deliver", "user", w.RC))
+        elif ev == "WWakeupA":
+            name = dec[1]
+            self._in_wakeup = name
+            self._preempt = list(preempt or [])
+            w.step(dec)
+            self._in_wakeup = None
+            if name in self._mid:
+                self._mid.discard(name)
+                ev = "WWakeupB"
+            else:
+                raise tlc.MachineryError("wake-up handler of %s did not call send_samples()" % name)
         else:
             rc_complete = ev == "RcRecv" and type(w.sim.chan[(w.DRIVER, w.RC)][0]).__name__ == "BenchmarkComplete"
             is_exit = ev == "DRecvFromRc" and type(w.sim.chan[(w.RC, w.DRIVER)][0]).__name__ == "ActorExitRequest"
@@ -402,6 +433,30 @@ class TracedRace:
             self.t_report = w.clock.now
         self.events.append({"ev": ev, "arg": arg, "st": st})
         return ev, arg
+
+    def _mid_hook(self, name):
+        """Called inside the worker's wake-up handler right after send_samples(): log WWakeupA, then let the executor run."""
+        wi = int(name[6:])
+        self._mid.add(name)
+        self.events.append({"ev": "WWakeupA", "arg": wi, "st": self.project()})
+        for want in self._preempt:
+            en = [d for d in self.w.enabled() if (d[0] == "req" and self.w.worker_of_client(d[1]) == name) or (d[0] == "exec_start" and d[1] == name)]
+            if not en:
+                break
+            if want == "any":
+                dec = self.w.rnd.choice(en)
+            else:
+                match = [d for d in en if self.decision_event(d) == tuple(want)]
+                if not match:
+                    continue
+                dec = match[0]
+            ev, arg = self.decision_event(dec)
+            if dec[0] == "req":
+                self._complete_request(dec[1])
+            else:
+                self.w.step(dec)
+            self.events.append({"ev": ev, "arg": arg, "st": self.project()})
+        self._preempt = []
 
     def _count_cct(self):
         return sum(1 for q in self.w.sim.chan.values() for m in q if type(m).__name__ == "CompleteCurrentTask")
@@ -459,9 +514,13 @@ class TracedRace:
         seeded fair random policy, then a round-robin sweep, drive the race to quiescence. Returns #script steps followed."""
         followed = 0
         skipped = 0
-        for want in script:
+        pending = [tuple(x) for x in script]
+        while pending:
+            want = pending.pop(0)
             if self.done() or len(self.events) >= max_events:
                 break
+            if want[0] == "WWakeupB":
+                continue  # consumed together with its WWakeupA
             match = None
             for dec in self.enabled():
                 if self.decision_event(dec) == tuple(want):
@@ -470,7 +529,21 @@ class TracedRace:
             if match is None:
                 skipped += 1
                 continue
-            self.do(match)
+            preempt = None
+            if want[0] == "WWakeupA":
+                # executor steps of this worker that the behaviour places between A and B happen inside the handler; steps of
+                # other actors in between commute with it and are deferred until after B
+                name = "Worker%d" % want[1]
+                preempt, deferred = [], []
+                while pending and pending[0] != ("WWakeupB", want[1]):
+                    nxt = pending.pop(0)
+                    mine = (nxt[0] in ("ExecStep",) and self.w.worker_of_client(nxt[1]) == name) or (nxt[0] == "ExecStart" and nxt[1] == want[1])
+                    (preempt if mine else deferred).append(nxt)
+                if pending:
+                    pending.pop(0)
+                pending = deferred + pending
+                followed += len(preempt)
+            self.do(match, preempt=preempt)
             followed += 1
         # fair random phase
         n_random = 0
@@ -480,7 +553,11 @@ class TracedRace:
             en = self.enabled()
             if not en:
                 break
-            self.do(rnd.choice(en))
+            dec = rnd.choice(en)
+            pre = None
+            if dec[0] == "wakeup" and dec[1].startswith("Worker") and rnd.random() < 0.4:
+                pre = ["any"] * rnd.randint(1, 3)
+            self.do(dec, preempt=pre)
             n_random += 1
             nsig = self.control_signature()
             unchanged = unchanged + 1 if nsig == sig else 0
